@@ -550,7 +550,7 @@ def split_ret(sig):
 
 
 def extract_fn(repo, rel, qualname, contract_lines, loops, ats, rewrites, stub=False, ret_name='r',
-               impl_header=None, info=None, props=None):
+               impl_header=None, info=None, props=None, emit_as=None):
     raw, src = repo.src(rel)
     if '::' in qualname and impl_header is None:
         impl_header, name = qualname.rsplit('::', 1)
@@ -575,6 +575,11 @@ def extract_fn(repo, rel, qualname, contract_lines, loops, ats, rewrites, stub=F
     out = []
     is_trait_impl = impl_header is not None and ' for ' in impl_header
     vis = '' if is_trait_impl else 'pub '
+    if emit_as:
+        # R10: a trait-impl method is emitted as an inherent method under another name (so it can carry a contract)
+        head = re.sub(r'\bfn\s+' + re.escape(name) + r'\b', 'fn ' + emit_as, head, count=1)
+        vis = 'pub '
+        rec['emitted_as'] = emit_as
     if stub:
         out.append('#[verifier::external_body]')
     line = vis + head
@@ -802,7 +807,10 @@ def process_template(template_path, repo_root, include_dirs=(), restrict=()):
             start = len(out_lines) + 1
             emit(extract_fn(repo, rel, qual, contract, loops, ats, rewrites, stub=('stub' in flags),
                             ret_name=kv.get('ret', 'r'), impl_header=impl_header, info=items,
-                            props=kv.get('props', '').split(',') if kv.get('props') else []))
+                            props=kv.get('props', '').split(',') if kv.get('props') else [], emit_as=kv.get('as')))
+            if kv.get('as'):
+                qual = (impl_header.split(' for ')[-1] + '::' if impl_header and ' for ' in impl_header else '') + kv['as']
+                items[-1]['name'] = qual
             fn_ranges[qual] = (start, len(out_lines))
             if findings_seen:
                 items[-1]['findings'] = findings_seen
